@@ -46,3 +46,15 @@ Fixpoint cs_eqb (a b : list (Z * list Z)) : bool :=
   | (k, l) :: s, (k', l') :: t => Z.eqb k k' && listZ_eqb l l' && cs_eqb s t
   | _, _ => false
   end.
+
+(* token comparisons for the session correspondence *)
+Definition ttok_eqb (a b : nat * nat * nat) : bool :=
+  let '(a1, a2, a3) := a in let '(b1, b2, b3) := b in Nat.eqb a1 b1 && Nat.eqb a2 b2 && Nat.eqb a3 b3.
+Definition ottok_eqb (a b : option (nat * nat * nat)) : bool :=
+  match a, b with Some x, Some y => ttok_eqb x y | None, None => true | _, _ => false end.
+Definition optok_eqb (a b : option (nat * option (nat * nat * nat) * nat)) : bool :=
+  match a, b with
+  | Some (t, k, c), Some (t', k', c') => Nat.eqb t t' && ottok_eqb k k' && Nat.eqb c c'
+  | None, None => true
+  | _, _ => false
+  end.
